@@ -20,6 +20,7 @@ import (
 	"verif/harness/specenv"
 	"verif/harness/tlcx"
 	"verif/harness/tlx"
+	"verif/harness/vstat"
 )
 
 // Local is a process-local variable of the translation (a function from process id to value).
@@ -213,6 +214,7 @@ func (p *Pair) Emit(traces []Trace) (mod, cfg string) {
 // Verdict of a TLC run over a trace module.
 type Verdict struct {
 	OK         bool
+	Budget     bool // the shard's time budget ran out before TLC finished: not judged
 	Infra      bool // TLC could not judge (parse error, JVM trouble): a harness problem, never a violation
 	Output     string
 	BadTrace   int // 1-based, when TLC's counterexample could be read
@@ -240,7 +242,14 @@ func (p *Pair) Check(traces []Trace, keepDir string) Verdict {
 	_ = os.WriteFile(filepath.Join(dir, p.Module+".tla"), spec, 0644)
 	_ = os.WriteFile(filepath.Join(dir, name+".tla"), []byte(mod), 0644)
 	_ = os.WriteFile(filepath.Join(dir, name+".cfg"), []byte(cfg), 0644)
-	ctx, cancel := context.WithTimeout(context.Background(), 10*time.Minute)
+	limit := time.Now().Add(10 * time.Minute)
+	if dl := vstat.DeadlineAt(1.8); !dl.IsZero() && dl.Before(limit) {
+		limit = dl
+	}
+	if time.Until(limit) < 20*time.Second {
+		return Verdict{Budget: true}
+	}
+	ctx, cancel := context.WithDeadline(context.Background(), limit)
 	defer cancel()
 	cmd := exec.CommandContext(ctx, "java", "-XX:+UseSerialGC", "-Xmx3g", "-Xss16m", "-Djava.io.tmpdir="+dir, "-cp", tlcx.Jar, "tlc2.TLC",
 		"-workers", "1", "-deadlock", "-nowarning", "-metadir", filepath.Join(dir, "states"), "-config", name+".cfg", name+".tla")
@@ -251,6 +260,9 @@ func (p *Pair) Check(traces []Trace, keepDir string) Verdict {
 	o := out.String()
 	v := Verdict{Output: o}
 	switch {
+	case ctx.Err() != nil:
+		v.Budget = true
+		return v
 	case strings.Contains(o, "Model checking completed. No error has been found"):
 		v.OK = true
 	case strings.Contains(o, "is violated") || strings.Contains(o, "Error: The following behavior constitutes a counter-example") || strings.Contains(o, "The first argument of Assert evaluated to FALSE") || strings.Contains(o, "Error: The behavior up to this point is"):
